@@ -399,18 +399,19 @@ class Evaluator(object):
 
     def st_Assert(self, node, st):
         out = []
-        for v, s in self.branch(node.test, st):
-            if v:
+        for t, s0 in self.ev(node.test, st):
+            alts = self.branch_term(t, s0)
+            passing = [(v, s) for v, s in alts if v]
+            for v, s in alts:
+                if not v and self.fork_asserts:
+                    self._finish('raise', ('call', ('name', 'AssertionError'), (), ()), s, node)
+            if not passing and not self.fork_asserts:
+                # condition decided False: the assert always fails
+                self._finish('raise', ('call', ('name', 'AssertionError'), (), ()), s0, node)
+            for _, s in passing:
+                # asserts are assumed to hold on the continuing path, but are remembered
+                self.emit(s, 'assert', t, node=node)
                 out.append((None, s))
-            elif self.fork_asserts:
-                self._finish('raise', ('call', ('name', 'AssertionError'), (), ()), s, node)
-        if not out and not self.fork_asserts:
-            # condition decided False: the assert always fails
-            self._finish('raise', ('call', ('name', 'AssertionError'), (), ()), st, node)
-        if not self.fork_asserts:
-            # keep only the passing alternative (asserts are assumed to hold) but remember them
-            for _, s in out:
-                self.emit(s, 'assert', None, node=node)
         return out
 
     def st_Delete(self, node, st):
